@@ -681,6 +681,10 @@ func (c *check) initC() {
 		}
 		c.cUnits = append(c.cUnits, u)
 	}
+	c.lyVars = lyVarCases()
+	for k := range c.lyVars {
+		c.cUnits = append(c.cUnits, cUnit{kind: "layers", misc: []int{k}})
+	}
 	c.shCases = c.sharedCases()
 	for lo := 0; lo < len(c.shCases); lo += 8 {
 		u := cUnit{kind: "shared"}
@@ -709,6 +713,10 @@ func (c *check) runC(u int64, ctx *engine.Ctx) {
 		for _, k := range cu.sh {
 			c.runShared(c.shCases[k], ctx)
 		}
+	case "layers":
+		for _, k := range cu.misc {
+			c.runLayerVar(c.lyVars[k], ctx)
+		}
 	}
 }
 
@@ -728,6 +736,11 @@ func (c *check) describeC(u int64) any {
 			l = append(l, gc.form+": "+mkGraph(gc.n, gc.bits, mode).decls())
 		}
 		return map[string]any{"part": "c", "custom_property_graphs": l}
+	}
+	if cu.kind == "layers" {
+		vc := c.lyVars[cu.misc[0]]
+		return map[string]any{"part": "c", "layered_background": "background: " + lyMake(vc.pres, vc.rot, true, lyImagesAbs).value,
+			"explored": "var() as the whole value, as each whole layer and as each component of each layer, against the long-hand spelling"}
 	}
 	if cu.kind == "shared" {
 		var l []string
